@@ -43,6 +43,9 @@ def anchors(a: Anchors):
 
 
 # --------------------------------------------------------------------------
+STEP_TIMEOUT = 30      # seconds a worker may take to reach its next atomic step before the replay is declared stuck
+
+
 class Sched:
     """lock-step scheduler: one 'go' = one atomic dict operation of one worker"""
     def __init__(self, n):
@@ -147,7 +150,7 @@ def replay(keys_kind, keys, ncalls, schedule):
         t.start()
     stuck = False
     for i in range(n):
-        stuck = stuck or not sched.arrived[i].wait(2)
+        stuck = stuck or not sched.arrived[i].wait(STEP_TIMEOUT)
     for tid in schedule:
         if stuck:
             break
@@ -155,13 +158,13 @@ def replay(keys_kind, keys, ncalls, schedule):
             continue
         sched.arrived[tid].clear()
         sched.go[tid].set()
-        stuck = not sched.arrived[tid].wait(2)
+        stuck = not sched.arrived[tid].wait(STEP_TIMEOUT)
     # let everybody finish
     for i in range(n):
         while not stuck and not sched.finished[i]:
             sched.arrived[i].clear()
             sched.go[i].set()
-            stuck = not sched.arrived[i].wait(2)
+            stuck = not sched.arrived[i].wait(STEP_TIMEOUT)
     if stuck:
         # a worker did not reach its next atomic step: the cache blocks on something the lock-step replay does not model
         # (e.g. a lock held across steps).  The workers are daemon threads; release them all and give up on this replay.
